@@ -152,8 +152,8 @@ impl<'a> Ctx<'a> {
             }
             let n = (self.logu < joint) as usize;
             let s = (self.logu - 1000.0) < joint;
-            let alpha = (joint - self.joint0).exp().min(1.0);
-            // (f64::min returns the non-NaN operand: a NaN energy change counts as alpha = 1 here as in the library)
+            // a leaf of undefined (NaN) energy is a rejection: it contributes 0 to the statistic
+            let alpha = if joint.is_nan() { 0.0 } else { (joint - self.joint0).exp().min(1.0) };
             let xt = self.pos_tol(&q);
             self.leaves.push((q.x.clone(), joint, xt));
             return TreeOut { minus: q.clone(), plus: q.clone(), cand: q, cand_joint: joint, n, s, alpha, n_alpha: 1, diverged: !s };
